@@ -122,6 +122,10 @@ def run_blake(case, ctx, rng):
             ctx.eq('H2:counter-trace', [e[2] for e in ev], want_t, **det)
         else:
             ctx.notes['hook H2 absent: trace not observed'] += 1
+    if L is None and n % 3 == 0 and not case['single']:
+        from vmon.core import mutable_arg
+        hb = BK.Blake(size)
+        mutable_arg(ctx, 'blake==reference', (lambda buf: hb(buf) if salt == 0 else hb(buf, salt)), M, want, one_object=True, **det)
 
 def b2params(rng, case, size):
     """returns (crysp kwargs, hashlib kwargs, key)"""
@@ -183,6 +187,13 @@ def run_blake2(case, ctx, rng):
     want = (hashlib.blake2b if big else hashlib.blake2s)(M, **hk).digest()
     det = dict(size=size, n=n, params={k: (v.hex() if isinstance(v, bytes) else v) for k, v in ck.items()}, M=M, singleton=case['single'])
     ctx.eq('blake2==hashlib', got, want, **det)
+    if not case['single'] and (n if isinstance(n, int) else 0) % 2 == 0:
+        # caller-owned buffers: message, salt and personalization given as bytearrays; one object hashing twice
+        from vmon.core import mutable_arg
+        bk = {a: (bytearray(v) if isinstance(v, bytes) else v) for a, v in ck.items()}
+        hb = BK.Blake2(size)
+        if mutable_arg(ctx, 'blake2==hashlib', (lambda buf: hb(buf, **bk)), Min, want, one_object=True, **det):
+            ctx.eq('blake2==hashlib', {a: bytes(v) for a, v in bk.items() if isinstance(v, bytearray)}, {a: v for a, v in ck.items() if isinstance(v, bytes)}, arg='salt / pers buffers left unchanged', **det)
     if not is_exc(got):
         ctx.eq('digest-length', len(got), ck.get('outlen', B // 2), **det)
         nb = max(1, -(-len(Min) // B))
